@@ -75,7 +75,7 @@ func registerSched() {
 		RuleText: genRule + "Non-trivial: a case with a bind/nomination of a pod whose hard constraints exclude at least one node of the pool, or that carries inter-pod (anti-)affinity terms, or whose group/sub-group has a required topology level.",
 		Assume: []string{"terminating, same-cycle-evicted and merely nominated pods are don't-care for inter-pod terms (either reading accepted)", "only Ready/unschedulable node conditions are demanded",
 			"topology: labels are demanded for the required level and coarser levels only; already active pods pin the domain only if they lie in one domain"}})
-	run.Register(&SchedCheck{Id: "C06", Profile: "victims", Quick: 1000, Thorough: 8000, PodGroupLag: true,
+	run.Register(&SchedCheck{Id: "C06", Profile: "victims", Quick: 1500, Thorough: 8000, PodGroupLag: true,
 		Mutate: func(c *spec.Case, seed int64, idx int) { oracle.ResetC06() },
 		Gen: func(seed int64, idx int, tier string) *spec.Case {
 			if idx%3 == 1 { // a third of the cases: department-contention clusters with min-runtimes and workload controllers
@@ -143,7 +143,7 @@ func registerSched() {
 		Assume: []string{"bounded restatement: no lasso within the cycle budget from the generated initial states; says nothing about longer periods",
 			"identical pods of one pod set are interchangeable in the canonical state"}})
 	var c07in *oracle.C07Input
-	run.Register(&SchedCheck{Id: "C07", PodGroupLag: true, Profile: "fairness", Quick: 1200, Thorough: 12000,
+	run.Register(&SchedCheck{Id: "C07", PodGroupLag: true, Profile: "fairness", Quick: 2000, Thorough: 12000,
 		Gen: func(seed int64, idx int, tier string) *spec.Case {
 			if idx%3 == 1 { // a third of the cases: department-contention clusters (uneven trees, reclaim in every case)
 				// (gen.ContentionOpts.Surplus - quotas adding up to less than the capacity - was tried here and dropped again:
